@@ -142,7 +142,7 @@ def string_cases(tier, seed, want, tag, sizing=False, hostile=False,
                 yield k2, {'s': s, 'w': 'tokens'}
     k += strgen.count_strings(strgen.TOKENS, 1, L)
     toks = strgen.TOKENS + (strgen.HOSTILE_TOKENS if hostile else [])
-    for j in range(int((40000 if q else 800000) * scale)):
+    for j in range(int((40000 if q else 450000) * scale)):
         k += 1
         if want(k):
             rng = _r.Random('%d/%d/%s/r' % (seed, j, tag))
@@ -173,7 +173,7 @@ def string_cases(tier, seed, want, tag, sizing=False, hostile=False,
     # single-character faults of W1 documents: quick = a sample of 150 faults
     # from each of 48 documents (many document shapes beat every position of
     # a few), thorough = every fault of 400 documents
-    for j in range(int((48 if q else 400) * scale)):
+    for j in range(int((48 if q else 250) * scale)):
         rng = _r.Random('%d/%d/%s/d' % (seed, j, tag))
         src, _ = docgen.gen_doc(rng, cfg_general(j, 'quick'))
         src = src[:220]
@@ -186,7 +186,7 @@ def string_cases(tier, seed, want, tag, sizing=False, hostile=False,
                 yield k, {'s': m, 'w': 'fault:' + kind}
     # whitespace injected before one opening brace/bracket of a document
     # (reaches `\end {x}`, `\begin {x}`, `\item [x]`, `{verbatim}` ...)
-    for j in range(int((60 if q else 3000) * scale)):
+    for j in range(int((60 if q else 1800) * scale)):
         rng = _r.Random('%d/%d/%s/w' % (seed, j, tag))
         src, _ = docgen.gen_doc(rng, cfg_general(j, 'quick'))
         src = src[:400]
@@ -197,7 +197,7 @@ def string_cases(tier, seed, want, tag, sizing=False, hostile=False,
                 m = src[:i] + rng.choice([' ', '\n', '\t', ' \n ', '  ']) + src[i:]
                 if ok(m):
                     yield k, {'s': m, 'w': 'ws-before-opener'}
-    for j in range(int((2500 if q else 80000) * scale)):
+    for j in range(int((2500 if q else 45000) * scale)):
         k += 1
         if want(k):
             rng = _r.Random('%d/%d/%s/s' % (seed, j, tag))
